@@ -8,7 +8,7 @@ GetBulkIter (sync and async) against scripted agents.  Oracle: an independent re
 property text (below), plus the property clauses checked directly on what the implementation yielded."""
 import itertools
 
-from lib import codec, gen, vf
+from lib import codec, gen, pylayer, vf
 import ber
 
 BASE = [1, 3, 6, 1, 2]
@@ -101,6 +101,19 @@ def expected_walk(kind, stream):
     return out
 
 
+def follow_up_wrong(exp, out, stp):
+    """Each follow-up request must name the last OID the walk accepted (reference walker), the first the requested base."""
+    reqs = [q.get("pdu") or {} for q in out.get("requests", [])]
+    want = [BASE] + [last for (_w, last, stop) in exp if not stop and last is not None]
+    for i, (q, w) in enumerate(zip(reqs, want)):
+        o = (q.get("oids") or [None])[0]
+        if o != w:
+            return "request %d asks for %s, the last accepted OID is %s" % (i, o and ber.oid_text(o), ber.oid_text(w))
+    if len(reqs) > len(want):
+        return "%d requests were issued, the walk ends after %d" % (len(reqs), len(want))
+    return None
+
+
 def main(argv):
     c = vf.Check("C06", argv)
     thorough = c.tier == "thorough"
@@ -178,6 +191,10 @@ def main(argv):
     sample = rng.sample(streams[:n_exh_next], 60 if thorough else 25) + rng.sample(streams[n_exh_next:], 120 if thorough else 40)
     # the constant-reply agent of the pinned-commit defect, and a two-cycle
     loops = [("next", [[(U["A"], "i")]] * 30), ("bulk", [[(U["A"], "i"), (U["B"], "i")]] * 30), ("next", [[(U["A"], "i")], [(U["B"], "i")], [(U["A"], "i")]] * 10)]
+    # oversized GetBulk replies (more varbinds than max_repetitions), the end marker beyond position max_repetitions
+    iv = lambda *names: [(U[x], "i") for x in names]
+    loops += [("bulk", [iv("A", "C", "B", "D"), iv("F", "E", "O"), iv("E")]), ("bulk", [iv("A", "C", "B"), iv("D", "F", "E", "O")]),
+              ("bulk", [iv("A", "C", "B", "D", "F", "E")]), ("bulk", [iv("A", "C", "O", "B")])]
     for ver in ("v1", "v2c"):
         for mode in ("sync", "async"):
             sc = {"version": ver, "mode": mode, "timeout": 0.3, "steps": []}
@@ -187,13 +204,21 @@ def main(argv):
                     continue
                 reps = [[{"vbs": b"".join(ber.varbind(ber.enc_oid(o), ber.enc_value(*KINDS[kk])) for o, kk in rp).hex()}] for rp in st]
                 end = {"vbs": ber.varbind(ber.enc_oid(U["O"]), ber.enc_value("int", 1)).hex()}
-                sc["steps"].append({"op": "getnext" if k == "next" else "getbulk", "args": [ber.oid_text(BASE)] + ([10] if k == "bulk" else []),
+                sc["steps"].append({"op": "getnext" if k == "next" else "getbulk", "args": [ber.oid_text(BASE)] + ([rng.choice([1, 2, 10])] if k == "bulk" else []),
                                     "replies": reps, "default_reply": end, "cap": 60})
                 ex.append((k, st))
             scs.append(sc)
             exps.append(ex)
     res, log = vf.run_api_worker("C06", {"scenarios": scs})
     n_api = 0
+    # the same walks in Model.Walk (getnext_walk / getbulk_walk: the functions the C05/C06 theorems are about)
+    mlines = []
+    for sc, ex in zip(scs, exps):
+        for stp, (k, st) in zip(sc["steps"], ex):
+            pdus = [ber.pdu(0xA2, 1, 0, 0, [ber.varbind(ber.enc_oid(o), ber.enc_value(*KINDS[kk])) for o, kk in rp]).hex() for rp in st]
+            pdus.append(ber.pdu(0xA2, 1, 0, 0, [ber.varbind(ber.enc_oid(U["O"]), ber.enc_value("int", 1))]).hex())
+            mlines.append("pywalk %s %s 20 200 %s" % ("next" if k == "next" else "bulk:%d" % stp["args"][1], ber.oid_text(BASE).encode().hex(), " ".join(pdus)))
+    mwalks = iter(vf.run_lines(cd.model, mlines))
     if res is None:
         c.errors.append("API worker failed: " + log[-1500:])
     else:
@@ -203,6 +228,20 @@ def main(argv):
                 continue
             for stp, (k, st), out in zip(sc["steps"], ex, rec["steps"]):
                 n_api += 1
+                mw = next(mwalks)
+                if out["kind"] == "ITER" and mw.startswith("OK "):
+                    f = dict(x.split("=", 1) for x in mw[3:].split(" "))
+                    m_items = [] if f["items"] == "-" else f["items"].split(";")
+                    m_req = [] if f["req"] == "-" else f["req"].split(",")
+                    i_req = [ber.oid_content(((q.get("pdu") or {}).get("oids") or [[0, 0]])[0]).hex() for q in out.get("requests", [])]
+                    if (m_items, f["end"], m_req) != (out["items"], out["ending"], i_req):
+                        dis += 1
+                        if dis <= 3:
+                            c.log("Model.Walk and the %s/%s Python iterator differ on `%s`:\n     model %s\n     impl  items=%s req=%s end=%s"
+                                  % (sc["version"], sc["mode"], str(st)[:200], mw[:300], out["items"][:6], i_req[:6], out["ending"]))
+                        if not any(b.startswith("correspondence") for b in c.broken):
+                            c.broken = list(c.broken) + ["correspondence (Model.Walk vs %s %s iterator, %s): model `%s` impl items=%s end=%s"
+                                                         % (sc["version"], sc["mode"], stp["op"], mw[:200], out["items"][:4], out["ending"])]
                 c.count(("api", sc["version"], sc["mode"], k, str(st)[:300]), True)
                 # expected items: reference walker over the stream followed by the out-of-subtree default reply
                 exp = expected_walk(k, st + [[(U["O"], "i")]])
@@ -226,11 +265,17 @@ def main(argv):
                 elif out["ending"] == "CAP":
                     c.violation("%s/%s %s: the walk did not end within %d items" % (sc["version"], sc["mode"], stp["op"], stp["cap"]),
                                 {"scenario": dict(sc, steps=[stp]), "items": got[:40]}, key="api-walk-endless")
+                elif follow_up_wrong(exp, out, stp) is not None:
+                    c.violation("%s/%s %s: %s" % (sc["version"], sc["mode"], stp["op"], follow_up_wrong(exp, out, stp)),
+                                {"scenario": dict(sc, steps=[stp]), "requests": [q.get("pdu") for q in out["requests"]][:20]}, key="api-walk-followup")
                 elif got != want_items or out["ending"] != ending:
                     c.violation("%s/%s %s: yielded %d items ending %s; the property requires %d items ending %s"
                                 % (sc["version"], sc["mode"], stp["op"], len(got), out["ending"], len(want_items), ending),
                                 {"scenario": dict(sc, steps=[stp]), "items": got[:40], "expected": want_items[:40], "ending": out["ending"]},
                                 key="api-walk-items")
+    # ---- the Python layer alone, on scripted socket results, against Model.PyLayer (lib/pylayer.py)
+    n_pl, d_pl = pylayer.run(c, cd.model, c.rng, 2000 if thorough else 400, "C06")
+    c.coverage["python_layer_cases"] = n_pl
     return c.finish(
         rule="exhaustive: every GetNext reply stream of depth %d over %d replies (9 OIDs incl. base itself, before/after/outside the subtree, "
              "arcs 200/16383/16384 x {value, NULL, endOfMibView, noSuchInstance}, empty and two-varbind replies): %d streams; GetBulk: all %d "
